@@ -545,7 +545,14 @@ where
     // independently, from the public compute_dimensions), rows encoded with the public `encode`, column j hashed with
     // Blake2s over the canonical serialization of the column vector, Merkle tree re-implemented in the harness.
     let mut coeffs = L::poly_to_vec(&p);
-    let (dr, dc) = w.ck.compute_dimensions(coeffs.len());
+    if coeffs.is_empty() {
+        // the zero polynomial is committed as the single coefficient 0
+        coeffs.push(LFr::zero());
+    }
+    let (dr, dc) = match guard(|| w.ck.compute_dimensions(coeffs.len())) {
+        Ok(d) => d,
+        Err(pn) => return ctx.violated("metadata-dimensions", "compute_dimensions", desc, json!({"panic": pn, "len": coeffs.len()})),
+    };
     let md = &cm[0].metadata;
     let dims_ok = md.n_rows == dr && md.n_cols == dc && dr * dc >= coeffs.len();
     ctx.check(dims_ok, "metadata-dimensions", "commit", desc.clone(), || json!({"metadata": [md.n_rows, md.n_cols, md.n_ext_cols], "compute_dimensions": [dr, dc], "len": coeffs.len()}));
